@@ -44,6 +44,10 @@ fn build_text(leading: &[Glob], tree: &Option<E>, choices: &[u16]) -> Option<(St
             }
         }
         text.push_str(&body);
+    } else if !text.is_empty() {
+        // a command line made of options only: blanks around it change nothing
+        let k = choices.first().copied().unwrap_or(0) as usize;
+        text = format!("{}{text}{}", render::EDGES[k % render::EDGES.len()], render::EDGES[(k / render::EDGES.len()) % render::EDGES.len()]);
     }
     Some((text, ch.glued))
 }
